@@ -347,9 +347,33 @@ def fixed_seq_shapes():
     }
 
 
+def local_shapes():
+    """signals constructed inside the context: immediate initialisation (reads in the same activation see the value, whole,
+    sliced, indexed - constant and run-time), delayed_init, and chains of locals"""
+    D, A = ref("d"), ref("a")
+    L, M = ref("loc"), ref("loc2")
+    return {
+        "local_whole": ([local("loc", U2, D), assign("next", "q", L), assign("next", "o", resize(L, 3))], ["loc"]),
+        "local_parts": ([local("loc", U2, bin_("add", D, pint(1))), assign("next", target("r", [p_slice(1, 0)]), view(L, "bv")),
+                         assign("next", target("r", [p_idx(3)]), idx(L, 1)), assign("next", "p", dynidx(L, view(slice_(D, 0, 0), "u")))], ["loc"]),
+        "local_expr_of_parts": ([local("loc", U2, D), assign("next", "p", bin_("xor", idx(L, 0), idx(L, 1))),
+                                 assign("next", "q", view(slice_(L, 1, 0), "u"))], ["loc"]),
+        "local_chain": ([local("loc", U2, D), local("loc2", U2, bin_("add", L, pint(1))), assign("next", "q", M),
+                         assign("next", "p", idx(M, 0))], ["loc", "loc2"]),
+        "local_delayed": ([local("loc", U2, D, delayed=True), assign("next", "q", L), assign("next", "p", idx(L, 1))], ["loc"]),
+        "local_in_branch": ([if_(A, [local("loc", U2, D), assign("next", "q", L)], [assign("next", "q", pint(0))])], ["loc"]),
+    }
+
+
 def seq_designs(tier, rng, prefix, resets=(None,), with_extras=False, n_random=None, opts=False):
     ents = []
     k = 0
+    for tag, (body, locs) in local_shapes().items():
+        for rst in resets:
+            e = seq_entity(f"{prefix}_{k:04d}", body, rst, f"seq_{tag}", conc_body(rng))
+            e["objs"] += [obj(n, "signal", U2, local=True) for n in locs]
+            ents.append(e)
+            k += 1
     for tag, body in fixed_seq_shapes().items():
         for rst in resets:
             ents.append(seq_entity(f"{prefix}_{k:04d}", body, rst, f"seq_{tag}", conc_body(rng),
